@@ -1,0 +1,41 @@
+// Copyright © 2024 Attestant Limited.
+// Licensed under the Apache License, Version 2.0 (the "License");
+// you may not use this file except in compliance with the License.
+// You may obtain a copy of the License at
+//
+//     http://www.apache.org/licenses/LICENSE-2.0
+//
+// Unless required by applicable law or agreed to in writing, software
+// distributed under the License is distributed on an "AS IS" BASIS,
+// WITHOUT WARRANTIES OR CONDITIONS OF ANY KIND, either express or implied.
+// See the License for the specific language governing permissions and
+// limitations under the License.
+
+//go:build verif
+
+package wallet
+
+import (
+	"context"
+
+	"github.com/attestantio/go-eth2-client/spec/phase0"
+	e2wtypes "github.com/wealdtech/go-eth2-wallet-types/v2"
+)
+
+// VerifRefreshFromWallets carries out the account refresh over the supplied wallets rather than over wallets
+// opened from the stores, followed by the validator refresh.  For external runtime monitors only.
+func (s *Service) VerifRefreshFromWallets(ctx context.Context, wallets []e2wtypes.Wallet) {
+	verificationRegexes := s.accountPathsToVerificationRegexes(s.accountPaths)
+	accounts := make(map[phase0.BLSPubKey]e2wtypes.Account)
+	for _, wallet := range wallets {
+		s.fetchAccountsForWallet(ctx, wallet, accounts, verificationRegexes)
+	}
+
+	s.mutex.Lock()
+	s.accounts = accounts
+	s.mutex.Unlock()
+
+	if err := s.refreshValidators(ctx); err != nil {
+		s.log.Error().Err(err).Msg("Failed to refresh validators")
+	}
+}
